@@ -54,6 +54,13 @@ def overlapping():
                     va = Variant("First", "unit", [], [ser(x)] + ([aci(True, explicit=False)] if a else []))
                     vb = Variant("Second", "unit", [], [ser(y)] + ([aci(True, explicit=True)] if b else []))
                     out.append(Item("E", [va, vb]))
+    # spellings equal under UNICODE case mapping only (not under ASCII folding) are distinct keys and distinct guard arms
+    for a, b in (("k", "\u212a"), ("é", "É"), ("ss", "ß"), ("s", "\u017f"), ("i", "\u0131"), ("ä-x", "Ä-X")):
+        for x, y in ((a, b), (b, a)):
+            for fa in (False, True):
+                for fb in (False, True):
+                    out.append(Item("E", [Variant("First", "unit", [], [ser(x)] + ([aci(True, explicit=False)] if fa else [])),
+                                          Variant("Second", "unit", [], [ser(y)] + ([aci(True, explicit=True)] if fb else []))]))
     for x, y, z in (("ab", "AB", "aB"), ("Ab", "ab", "ab"), ("x", "X", "x")):
         for mask in range(8):
             vs = [Variant(n, "unit", [], [ser(l), ser(l + "2")] + ([aci(True, explicit=False)] if mask >> i & 1 else []))
@@ -62,11 +69,23 @@ def overlapping():
     return out
 
 
+def shadowing():
+    """variants named like prelude items, glob-imported at the definition site: `every enum accepted without use_phf still
+    compiles with it` includes these (the generated code must not rely on an unqualified Ok / Err / Some / None)"""
+    out = []
+    for names in (["Ok", "Err"], ["Some", "None", "Ok"], ["None", "Other"], ["Result", "Option", "Err", "Some"]):
+        for flag in (False, True):
+            vs = [Variant(n, "unit", [], [aci(True, explicit=False)] if flag and i % 2 == 0 else []) for i, n in enumerate(names)]
+            out.append(Item("E", vs))
+            out.append(Item("E", vs + [Variant("Rest", "tuple", [Field("String")], [DEFAULT])]))
+    return out
+
+
 def build_corpus(tier, rng):
     c = Corpus(ID)
     thorough = tier == "thorough"
     PLAIN.clear()
-    cands = [("regression", it) for it in regression()] + [("overlap", it) for it in overlapping()]
+    cands = [("regression", it) for it in regression()] + [("overlap", it) for it in overlapping()] + [("prelude-shadow", it) for it in shadowing()]
     for it in c01.systematic(rng):
         for v in it.variants:
             if not v.has("default"):
@@ -91,9 +110,10 @@ def build_corpus(tier, rng):
         elif not c01.admit(it, info):
             rejected += 1
             continue
-        k = c.add_def(it, family=fam, derives=["EnumString"], info=info, twin=None)
+        sh = fam == "prelude-shadow"
+        k = c.add_def(it, family=fam, derives=["EnumString"], info=info, twin=None, shadow_prelude=sh)
         twin = twins[ci]
-        k2 = c.add_def(twin, family=fam, derives=["EnumString"], info=info, twin=k)
+        k2 = c.add_def(twin, family=fam, derives=["EnumString"], info=info, twin=k, shadow_prelude=sh)
         seen = set()
         for s, note in G.fromstr_inputs(it, info, rng, flipcap=(256 if thorough else 16), nrandom=(30 if thorough else 6)):
             c.add_q(k, "fromstr", [S.hx(s)], note=note)
